@@ -537,6 +537,16 @@ impl<P: Payload> InitState<P> {
         }
     }
 
+    fn algorithm_rank(algo: &'static Algorithm) -> u8 {
+        if algo == &AES_128_GCM {
+            1
+        } else if algo == &AES_256_GCM {
+            2
+        } else {
+            3
+        }
+    }
+
     fn select_algorithm(&self, peer_algos: &Algorithms) -> Result<Option<(&'static Algorithm, f32)>, Error> {
         if self.algorithms.allow_unencrypted && peer_algos.allow_unencrypted {
             return Ok(None);
@@ -555,7 +565,16 @@ impl<P: Payload> InitState<P> {
                     .find(|(a2, _)| a1 == a2)
                     .map(|(_, s2)| (*a1, if s1 < s2 { *s1 } else { *s2 }))
             })
-            .max_by(|(_, s1), (_, s2)| if s1 < s2 { cmp::Ordering::Less } else { cmp::Ordering::Greater });
+            .max_by(|(a1, s1), (a2, s2)| {
+                if s1 < s2 {
+                    cmp::Ordering::Less
+                } else if s1 > s2 {
+                    cmp::Ordering::Greater
+                } else {
+                    // Same speed: both nodes must break the tie the same way, independent of their list order
+                    Self::algorithm_rank(a2).cmp(&Self::algorithm_rank(a1))
+                }
+            });
         if let Some(algo) = algo {
             debug!("Init: best algorithm is {:?} with speed {}", algo.0, algo.1);
             Ok(Some(algo))
